@@ -13,7 +13,7 @@ ASSUMPTIONS = c01.ASSUMPTIONS + [
 
 
 def run(tier, seed):
-    return c01.explore("C05", PROPS, [("project", 0.6), ("core", 0.2), ("sort", 0.2)], tier, seed, 900, 40000, ASSUMPTIONS)
+    return c01.explore("C05", PROPS, [("project", 0.6), ("core", 0.2), ("sort", 0.2), ("shared", 0.2)], tier, seed, 900, 40000, ASSUMPTIONS)
 
 
 def replay(case):
